@@ -1,4 +1,5 @@
 """C09 - the result does not depend on how fast goroutines are scheduled."""
+import json
 import random
 
 from .. import gen, harness, mon, ref, runfam
@@ -74,6 +75,10 @@ def single_result_shapes():
 
 def result_class(run):
     if run.get("out_id"):
+        if "this is the fallback system" in json.dumps(run.get("data")):
+            # the run of a loop item was ended by the stuck-workflow detector and the loop reports that item as failed: the same
+            # event as a top-level ErrNoMorePossibleSteps, one level down
+            return "ErrNoMorePossibleSteps"
         return "output:" + run["out_id"]
     return run.get("err_type") or "error"
 
